@@ -304,3 +304,16 @@ Example ex_live_member_unpicklable :
   rt (table ex_table) Some
      (VObj "Job" [("task", VData 1); ("audit", VObj "Audit" [("audit_flags", VData 2); ("resource_monitor", VLive 3)])]) = None.
 Proof. reflexivity. Qed.
+
+Theorem required_survive t cp req c l v' :
+  (forall n m, cp n = Some m -> m = n) -> push_wfb t = true -> config_safeb t req = true ->
+  rt (table t) cp (VObj c l) = Some v' ->
+  exists l', v' = VObj c l' /\
+    forall ks k, In (c, ks) req -> In k ks -> opt_rel (survives (table t)) (lookup k l) (lookup k l').
+Proof.
+  intros F W S E. pose proof (roundtrip_nontransient_table t cp F W _ _ E) as H.
+  inversion H as [| |c0 l0 l' Hk]; subst. exists l'. split; [reflexivity|].
+  intros ks k Hc Hin. apply Hk.
+  unfold config_safeb in S. rewrite forallb_forall in S. specialize (S _ Hc). cbn in S.
+  rewrite forallb_forall in S. specialize (S _ Hin). apply negb_true_iff in S. exact S.
+Qed.
